@@ -35,6 +35,7 @@ type World struct {
 	DefaultUnroll int
 	GenSeconds    int
 	TmpDir        string
+	RepoDir       string // the tree that was loaded (replays run there)
 
 	mu      sync.Mutex
 	fnInfos map[*ssa.Function]*fnInfo
@@ -104,7 +105,7 @@ func Load(dir string, tags string) (*World, error) {
 	}
 	prog, spkgs := ssautil.AllPackages(roots, ssa.InstantiateGenerics)
 	w := &World{
-		Fset: prog.Fset, Prog: prog, Repo: map[string]bool{},
+		Fset: prog.Fset, Prog: prog, Repo: map[string]bool{}, RepoDir: dir,
 		Contracts: map[string]*Contract{}, Models: map[string]*ssa.Function{}, ModelPkg: map[string]string{}, Loops: map[string]*LoopSpec{},
 		MayPanic: map[string]string{}, Inline: map[string]bool{},
 		MaxSteps: 400000, MaxDepth: 24, DefaultUnroll: 3, GenSeconds: 90,
